@@ -24,7 +24,9 @@ NoFign(n) == [j \in 1..n |-> FALSE]
 W(k, tys) == [k |-> k, tys |-> tys, ign |-> FALSE, fign |-> NoFign(Len(tys))]
 WideEnums == {<<W("tuple", <<"A">>), W("tuple", <<"B">>), W("tuple", <<"A">>)>>,
               <<W("unit", <<>>), W("tuple", <<"A">>), W("tuple", <<>>)>>,
-              <<W("tuple", <<"A", "B">>), W("tuple", <<"A">>), W("tuple", <<"A", "B">>), W("tuple", <<"B">>)>>}
+              <<W("tuple", <<"A", "B">>), W("tuple", <<"A">>), W("tuple", <<"A", "B">>), W("tuple", <<"B">>)>>,
+              \* seventeen variants (a derive that switches to a table, a search or a chunked match beyond some width)
+              [i \in 1..17 |-> IF i % 3 = 0 THEN W("unit", <<>>) ELSE IF i % 3 = 1 THEN W("tuple", <<"A">>) ELSE W("tuple", <<"B", "A">>)]}
 Init == /\ vs \in {<<>>} \cup WideEnums /\ generic \in BOOLEAN /\ forms \in FormSets \cup {{}}
         /\ place \in {"enum", "variant1"} /\ (place = "variant1" => forms # {})
 Add == /\ Len(vs) < MaxVariants
@@ -41,7 +43,8 @@ IsTable == [a \in 1..Len(vs) |-> [x \in 1..Len(vs) |-> DocIs(vs, a, x)]]
 Targets == TargetTypes(vs)
 \* the naming the texts are evaluated under (the replay renames a share of the enums and re-renders from `groups`)
 EnumName == "E"
-Names == <<[id |-> "Foo", fn |-> "foo"], [id |-> "FooBar", fn |-> "foo_bar"], [id |-> "Ab", fn |-> "ab"], [id |-> "Quux", fn |-> "quux"]>>
+Names == <<[id |-> "Foo", fn |-> "foo"], [id |-> "FooBar", fn |-> "foo_bar"], [id |-> "Ab", fn |-> "ab"], [id |-> "Quux", fn |-> "quux"]>> \o
+         <<[id |-> "Wa", fn |-> "wa"], [id |-> "Wb", fn |-> "wb"], [id |-> "Wc", fn |-> "wc"], [id |-> "Wd", fn |-> "wd"], [id |-> "We", fn |-> "we"], [id |-> "Wf", fn |-> "wf"], [id |-> "Wg", fn |-> "wg"], [id |-> "Wh", fn |-> "wh"], [id |-> "Wi", fn |-> "wi"], [id |-> "Wj", fn |-> "wj"], [id |-> "Wk", fn |-> "wk"], [id |-> "Wl", fn |-> "wl"], [id |-> "Wm", fn |-> "wm"]>>
 Texts == [unwrapPanic |-> [a \in 1..Len(vs) |-> [x \in 1..Len(vs) |-> [f \in {"owned", "ref", "ref_mut"} |->
                               DocUnwrapPanic(EnumName, Names, a, x, f)]]],
           tryUnwrap   |-> [a \in 1..Len(vs) |-> [x \in 1..Len(vs) |-> [f \in {"owned", "ref", "ref_mut"} |->
